@@ -648,6 +648,10 @@ def check(prog, rep):
         zero_sum(rep, kern, '%s[numpy]' % pubname, k, data)
     check_hillshade(prog, rep)
     check_resolution(prog, rep)
+    # numeric parameters (azimuth, altitude) are used as given: 0 is a legitimate value
+    from ..sharedrules import check_sentinels
+    for modname, fn in (('hillshade', 'hillshade'), ('slope', 'slope'), ('aspect', 'aspect'), ('curvature', 'curvature')):
+        check_sentinels(prog, rep, prog.module(modname), [fn], rule='L6-sentinel')
     check_summarize(prog, rep)
     rep.floor('L8-dask', 4)
     rep.floor('L1-loops', 3)
